@@ -2,13 +2,25 @@ package harness
 
 import (
 	"fmt"
+	"os"
 	"sort"
 	"strings"
 	"testing"
 
 	"github.com/kelindar/column"
+	"github.com/kelindar/column/commit"
 	"pgregory.net/rapid"
 )
+
+// dropEvents records, in the order in which they happened on the primary, the emitted commits and
+// the DDL steps, as closures that repeat them on a follower.
+type dropEvents struct{ list []func(*column.Collection) error }
+
+func (e *dropEvents) Append(cm commit.Commit) error {
+	cl := cm.Clone()
+	e.list = append(e.list, func(r *column.Collection) error { return r.Replay(cl) })
+	return nil
+}
 
 // TestC01DropInSweep: DropColumn takes no lock, so in a program with a second goroutine it can land
 // in the middle of a commit - in particular while the commit walks the column registry to clear the
@@ -24,12 +36,26 @@ import (
 func TestC01DropInSweep(t *testing.T) {
 	rapid.Check(t, func(t *rapid.T) {
 		capacity := rapid.SampledFrom(capacities).Draw(t, "capacity")
-		c := column.NewCollection(column.Options{Capacity: capacity, Vacuum: 24 * 3600 * 1e9})
+		prop := os.Getenv("VERIF_PROP")
+		if prop != "C06" {
+			prop = "C01"
+		}
+		events := &dropEvents{}
+		c := column.NewCollection(column.Options{Capacity: capacity, Vacuum: 24 * 3600 * 1e9, Writer: events})
 		defer c.Close()
+		ddl := func(name string, create bool) {
+			events.list = append(events.list, func(r *column.Collection) error {
+				if create {
+					return r.CreateColumn(name, column.ForInt())
+				}
+				r.DropColumn(name)
+				return nil
+			})
+		}
 		var trace []string
 		logf := func(f string, a ...interface{}) { trace = append(trace, fmt.Sprintf(f, a...)) }
 		fail := func(f string, a ...interface{}) {
-			t.Fatalf("C01 violated: %s\nhistory:\n  %s", fmt.Sprintf(f, a...), strings.Join(trace, "\n  "))
+			t.Fatalf("%s violated: %s\nhistory:\n  %s", prop, fmt.Sprintf(f, a...), strings.Join(trace, "\n  "))
 		}
 		// registry layout: d0 first (never dropped, the trigger watches it), then a drawn shuffle of
 		// value columns, scratch columns and the trigger
@@ -51,6 +77,7 @@ func TestC01DropInSweep(t *testing.T) {
 				c.CreateTrigger("watch", "d0", func(r column.Reader) {
 					if r.IsDelete() && armed != "" {
 						c.DropColumn(armed)
+						ddl(armed, false)
 						armed = ""
 						sweepDrops++
 					}
@@ -236,6 +263,7 @@ func TestC01DropInSweep(t *testing.T) {
 					for i := 0; i <= n; i++ {
 						if drop != "" && i == dropAt {
 							c.DropColumn(drop)
+							ddl(drop, false)
 							live[drop] = false
 							bodyDrops++
 						}
@@ -295,6 +323,7 @@ func TestC01DropInSweep(t *testing.T) {
 				for _, n := range names {
 					if !live[n] {
 						c.CreateColumn(n, column.ForInt())
+						ddl(n, true)
 						live[n] = true
 						logf("createColumn %s again", n)
 						return
@@ -305,6 +334,41 @@ func TestC01DropInSweep(t *testing.T) {
 			"": func(t *rapid.T) { check() },
 		})
 		check()
+		// a follower that starts with the initial columns and repeats the emitted commits and the DDL steps
+		// in the order in which they happened must end up equal to the model as well (C06 when run for it)
+		follower := column.NewCollection(column.Options{Capacity: capacity, Vacuum: 24 * 3600 * 1e9})
+		defer follower.Close()
+		follower.CreateColumn("d0", column.ForInt())
+		for _, e := range entries {
+			if e != "TRIGGER" {
+				follower.CreateColumn(e, column.ForInt())
+			}
+		}
+		for i, ev := range events.list {
+			if err := ev(follower); err != nil {
+				fail("follower: event #%d failed: %v", i, err)
+			}
+		}
+		if prop == "C06" {
+			if follower.Count() != len(rows) {
+				fail("the follower of the change stream has %d rows, the primary (and the model) %d", follower.Count(), len(rows))
+			}
+			follower.Query(func(txn *column.Txn) error {
+				return txn.Range(func(off uint32) {
+					want, ok := rows[off]
+					if !ok {
+						fail("the follower of the change stream holds a row at offset %d, the primary does not", off)
+					}
+					for _, n := range liveCols() {
+						got, has := txn.Int(n).Get()
+						w, wants := want[n]
+						if has != wants || (has && got != w) {
+							fail("follower of the change stream: row %d column %s reads %d/%v, the primary holds %d/%v", off, n, got, has, w, wants)
+						}
+					}
+				})
+			})
+		}
 		var labels []string
 		if sweepDrops > 0 {
 			labels = append(labels, "drop-inside-delete-sweep")
@@ -315,6 +379,6 @@ func TestC01DropInSweep(t *testing.T) {
 		if bodyDrops > 0 {
 			labels = append(labels, "drop-inside-transaction-body")
 		}
-		RecordCase("C01", "drop-in-sweep: "+strings.Join(trace, "; "), reusedSwept || bodyDrops > 0, labels...)
+		RecordCase(prop, "drop-in-sweep: "+strings.Join(trace, "; "), reusedSwept || bodyDrops > 0, labels...)
 	})
 }
